@@ -42,9 +42,25 @@ impl SimulationBoundary {
         // of all generators through its walls, i.e. [anchor - width, anchor + 2 * width],
         // _including_ both end points (generators may lie exactly on the boundary of the
         // simulation volume). Use [anchor - 1.5 * width, anchor + 2.5 * width).
+        //
+        // The exact in-sphere predicate is evaluated on the integer coordinates, so all
+        // active axes must be rescaled by the _same_ factor (an anisotropic rescaling turns
+        // circumspheres into ellipsoids and makes the exact decisions inconsistent with the
+        // geometry for non-cubic simulation volumes). The rescaling of the unused axes of
+        // lower dimensional tessellations does not influence the predicate.
+        let max_width = match dimensionality {
+            Dimensionality::OneD => width.x,
+            Dimensionality::TwoD => width.x.max(width.y),
+            Dimensionality::ThreeD => width.max_element(),
+        };
+        let scale_width = match dimensionality {
+            Dimensionality::OneD => DVec3::new(max_width, width.y, width.z),
+            Dimensionality::TwoD => DVec3::new(max_width, max_width, width.z),
+            Dimensionality::ThreeD => DVec3::splat(max_width),
+        };
         Self {
             anchor: anchor - 1.5 * width,
-            inverse_width: 1. / (4. * width),
+            inverse_width: 1. / (4. * scale_width),
             dimensionality,
             clipping_planes,
         }
